@@ -23,6 +23,7 @@ class AbstractSpecification(object):
         self.ast = ast
         self.interpreter = None
         self.set_ast_flag = False # It is for interpreter is set ast or not.
+        self.set_ast_flag_online = False # the online interpreter of a specification that has both is handed the ast separately
         self.out_var = ''
         self.out_var_field = ''
         self.var_topic_dict = dict()
@@ -308,9 +309,9 @@ class AbstractOnlineSpecification(AbstractSpecification):
 
     # forwarding to interpreter
     def update(self, *args, **kwargs):
-        if self.set_ast_flag != True:
+        if self.set_ast_flag_online != True:
             self.online_interpreter.set_ast(self.ast)
-            self.set_ast_flag = True
+            self.set_ast_flag_online = True
 
         #TODO we may make it consistent with interpreter class.
         if isinstance(self.online_interpreter, AbstractDenseTimeOnlineInterpreter):
@@ -329,9 +330,9 @@ class AbstractOnlineSpecification(AbstractSpecification):
             return self.online_interpreter.update(i, dataset)
 
     def final_update(self, *args, **kwargs):
-        if self.set_ast_flag != True:
+        if self.set_ast_flag_online != True:
             self.online_interpreter.set_ast(self.ast)
-            self.set_ast_flag = True
+            self.set_ast_flag_online = True
 
         #TODO we may make it consistent with interpreter class.
         if len(args) == 0:
